@@ -904,7 +904,7 @@ class SQLCache(CacheMixin):
         try:
             metadata, data = c.fetchone()
             metadata = json.loads(metadata)
-            if metadata.get("status") != "ready":
+            if metadata.get("status") != "ready" or data is None:
                 return None
         except:
             return None
